@@ -78,7 +78,7 @@ fn main() {
             }
             let mut rep = replay_codec::run(&r, &cases, seed, flip_stride);
             replay_codec::roundtrips(seed, &mut rep);
-            let out = serde_json::json!({"cases": rep.cases, "checks": rep.checks, "mismatches": rep.mismatches, "samples": rep.samples, "skipped": rep.skipped});
+            let out = serde_json::json!({"cases": rep.cases, "checks": rep.checks, "mismatches": rep.mismatches, "samples": rep.samples, "skipped": rep.skipped, "drift": rep.drift});
             std::fs::write(&args[3], serde_json::to_string_pretty(&out).unwrap()).unwrap();
             println!("replayed codec cases={} mismatches={}", rep.cases, rep.mismatches.len());
             std::process::exit(0);
